@@ -600,13 +600,17 @@ ValueCase ==
         /\ Pick(i)
         /\ c' = ParamsCaseRec("value", <<i>>, MkP(<<PV("lst", ValuePool[i])>>, {}, -1, <<>>), -1)
 
+RECURSIVE MarkCodeFrom(_, _)
+MarkCodeFrom(marks, i) == IF i > Len(NameOrder) THEN 0
+                          ELSE (IF NameOrder[i] \in marks THEN 2 ^ (i - 1) ELSE 0) + MarkCodeFrom(marks, i + 1)
+MarkCode(marks) == MarkCodeFrom(marks, 1)        \* the subset of marks as a bit mask (part of the case identity)
 ParamsCase ==
   /\ c.kind = "init" /\ Family = "params"
   /\ \E i \in 1..Len(PContents) : \E marks \in SUBSET IterNames(PContents[i]) :
         LET P == MkP(PContents[i], marks, -1, <<>>)
         IN  \E k \in -1..(IF CanChild(P) /\ marks # {} THEN NumVar(P) - 1 ELSE -1) :
               /\ Pick(i + Cardinality(marks) + k + 1)
-              /\ c' = ParamsCaseRec("params", <<i, k>>, IF k < 0 THEN P ELSE Child(P, k), k)
+              /\ c' = ParamsCaseRec("params", <<i, MarkCode(marks), k>>, IF k < 0 THEN P ELSE Child(P, k), k)
 
 ResultCase ==
   /\ c.kind = "init" /\ Family = "result"
